@@ -1,16 +1,23 @@
 """C12 - Generated routes send each request where the VirtualService says.
 
-Proof: lean/IstioModel/C12/Theorems.lean (+ VHostsTheorems.lean): compiler correctness of the
-VirtualService -> Envoy route translation (routeMatch_correct, catchall_sound, early_stop_sound,
-rule_order_preserved, vs_compile_correct, weights_preserved, ...) over an exact model of route.go and a
-Lean rendering of Envoy's documented route-matching semantics; virtual-host domains (domains_unique,
-sortVHost_sound, ...).
-Tie: T-diff - stream `routes`: the REAL route.BuildHTTPRoutesForVirtualService output, canonicalised, vs
-the Lean compiler (structural), plus requests evaluated by a Go reference Envoy interpreter on the real
-routes vs the Lean Envoy semantics on the model's routes; stream `requests`: Go interpreter on the real
-routes vs the Lean source semantics `vsSpec` (no Lean compiler involved) on requests built from the rule
-literals and near misses; stream `vhosts`: real domain generation / dedupe / SortVHostRoutes vs model.
-On break: harness `oracle` evaluates the property statement on the real code (Go spec vs Go interpreter).
+Proof: lean/IstioModel/C12/{Theorems,VHostsTheorems,GatewayTheorems,MeshTheorems}.lean - compiler correctness of the
+VirtualService -> Envoy route translation (routeMatch_correct, catchall_sound, early_stop_sound, rule_order_preserved,
+vs_compile_correct, weights_preserved, cluster_correct, redirect_correct), virtual-host domains (domains_unique,
+select_unique, sortVHost_sound, mostSpecific_perm), gateway merge (gateway_merge_correct) and the composed sidecar route
+configuration (sidecar_rds_correct), over exact models of route.go / httproute.go / gateway.go pieces and a Lean rendering of
+Envoy's documented route semantics.
+Tie: T-diff, five streams + two witness streams:
+  routes    real route.BuildHTTPRoutesForVirtualService, canonicalised, vs the Lean compiler (structural) + requests
+  requests  Go reference Envoy interpreter on the real routes vs the Lean source semantics vsSpec
+  vhosts    real generateVirtualHostDomains / dedupeDomains / selectVirtualServices (hook), MostSpecificHostMatch, SortVHostRoutes
+  rds       end to end: real ConfigGenerator.BuildHTTPRoutes with a real XdsCache for several sidecars per case (Sidecar
+            resources, colliding names, duplicate VirtualService hosts, host:port authorities): virtual-host TABLE
+            (+ IgnorePortInHostMatching) and decisions vs the composed Lean model sidecarRDS, checked against meshSpec
+  gw        end to end: one or two Gateway resources on one router, real BuildHTTPRoutes -> buildGatewayHTTPRouteConfig:
+            virtual-host table (incl. collapseDuplicateRoutes, RequireTls) and decisions vs gwVHosts, checked against gwSpec
+  known-*   corpus witnesses of the known findings (must keep reproducing)
+On break: harness `oracle` evaluates the property statement on the real code (Go spec vs Go interpreter), one failure per
+distinct clause and case; known-finding classes only when the finding's own deviation reproduces the real answer.
 """
 import os
 
@@ -115,14 +122,19 @@ def nontrivial(case_ops, outs):
 
 
 def run(ctx):
-    ctx.rule = ("cases = one generated VirtualService each (1-4 http rules x 0-3 match blocks over uri exact/prefix/regex, ignoreUriCase, "
-                "headers, withoutHeaders, queryParams, method, authority, scheme, port, sourceLabels, sourceNamespace, gateways; weighted "
-                "destinations with subsets/ports, redirect, directResponse; plain / gateway / ingress semantics) accepted by the REAL "
-                "validation.ValidateVirtualService, 2-3 registry services, 1-2 proxies (sidecar {mesh} or router gateway names) and listener "
-                "ports, 6-11 requests per proxy built from the rule literals and near misses (one char off, case flip, prefix boundary, "
-                "missing/empty header, forbidden header present, missing/extra query parameter, method/authority/scheme change); stream "
-                "vhosts: service hostnames x proxy DNS domains x ports, authority selection, route lists for SortVHostRoutes; "
-                "distinct = hash of (ops, implementation outputs); non-trivial = at least one build/req/domain op")
+    ctx.rule = ("cases = routes/requests: one generated VirtualService each (1-4 http rules x 0-3 match blocks over uri exact/prefix/regex, "
+                "ignoreUriCase, headers, withoutHeaders, queryParams, method, authority, scheme, port, sourceLabels, sourceNamespace, "
+                "gateways; weighted destinations with subsets/ports, redirect, directResponse; plain / gateway / ingress semantics) "
+                "accepted by the REAL validation.ValidateVirtualService, registry services, 1-2 proxies (sidecar or router, TLS or not) "
+                "and listener ports, 6-11 requests per proxy built from the rule literals and near misses; vhosts: service hostnames "
+                "(incl. wildcard, prefix-related namespaces, IPs) x proxy DNS domains x ports, dedupe sequences, authority selection, "
+                "route lists for SortVHostRoutes, most-specific-host lookups; rds: a mesh of 2-7 services (prefix-related namespaces, "
+                "colliding names, shared VIPs, ExternalName alias), 0-4 VirtualServices (exact / wildcard / repeated hosts), optional "
+                "Sidecar resource with egress hosts, 1-3 sidecars served from one generator + XdsCache, 4-8 requests each addressed to "
+                "service names (FQDN, short, VIP, host:port incl. wrong port, near misses); gw: 1-2 Gateway resources (HTTP/HTTPS "
+                "servers, ns/ */ ./ qualified and wildcard hosts, httpsRedirect), 1-4 VirtualServices bound to one/both/another gateway "
+                "with match.gateways and JWT-claim keys, every route name, 5-9 requests mostly aimed at a VirtualService and its hosts; "
+                "distinct = hash of (ops, implementation outputs); non-trivial = at least one build/req/domain/rds op")
     ctx.assumptions = [
         "Envoy's router behaves as its v3 API documentation says (lean/IstioModel/C12/Envoy.lean; no Envoy binary in the sandbox); "
         "cross-checked only against an independent Go re-implementation of the same documentation",
